@@ -21,6 +21,7 @@ import (
 	"go/constant"
 	"log"
 	"path/filepath"
+	"strings"
 
 	goast "go/ast"
 	gotoken "go/token"
@@ -57,10 +58,11 @@ func commentStmtEx(cb *gogen.CodeBuilder, ctx *pkgCtx, stmt ast.Stmt) {
 		cb.SetComments(nil, false)
 		return
 	}
-	if doc := checkStmtDoc(stmt); doc != nil {
-		start = doc.Pos()
-	}
 	pos := ctx.fset.Position(start)
+	if doc := checkStmtDoc(stmt); doc != nil {
+		// the doc comment is printed between the directive and the declaration
+		pos.Line -= docLines(doc)
+	}
 	if ctx.relBaseDir != "" {
 		pos.Filename = fileLineFile(ctx.relBaseDir, pos.Filename)
 	}
@@ -69,6 +71,19 @@ func commentStmtEx(cb *gogen.CodeBuilder, ctx *pkgCtx, stmt ast.Stmt) {
 		List: []*goast.Comment{{Text: line}},
 	}
 	cb.SetComments(comments, false)
+}
+
+// docLines returns the number of line breaks printed from the start of a doc comment
+// to the declaration that follows it: a //-style comment ends its line, a /*-style
+// comment does not (the next comment or the declaration continues on its last line).
+func docLines(doc *ast.CommentGroup) (n int) {
+	for _, c := range doc.List {
+		n += strings.Count(c.Text, "\n")
+		if strings.HasPrefix(c.Text, "//") {
+			n++
+		}
+	}
+	return
 }
 
 func checkStmtDoc(stmt ast.Stmt) *ast.CommentGroup {
